@@ -9,6 +9,7 @@ Requests (space separated tokens, no spaces inside a token):
   bind   <K> <env> <vals> <pat> …         lambda parameters against the argument list `[v,…]`
   hist   <K> <env> <stmt> …               statement history (see `NoulithModel.Impl.PatternStmt`)
   istype <ty> <val>                       `v is T`                           ok 0|1 | throw
+  conv   <ty> <val>                       `T(v)`: kind of the result and `T(v) is T`   ok <kind>;0|1 | throw
   typeof <val>                            name of `type(v)`
 
 <dump> = `[v0,…]`: the values of the pool names 0..K-1 visible afterwards (`U` = unbound).
@@ -22,6 +23,7 @@ Response: `<impl>\t<spec>\t<diagnostics>`. -/
 import NoulithModel.Spec.Match
 import NoulithModel.Spec.TypedStore
 import NoulithModel.Impl.PatternChain
+import NoulithModel.Impl.PatternConv
 
 namespace Noulith.DriverC12
 open Noulith Noulith.C12
@@ -465,6 +467,53 @@ def specHist (k : Nat) (rs : List (Option Env)) : String :=
     | none => raiseMark) ++ "]"
 
 
+/-! ### conversions: the driver's stand-ins for the external functions
+
+`parseInt` is decided here (optional sign, decimal digits); the other parsers are answered for the
+simple decimal shapes the harness sends; values that depend on rounding or printing are not compared
+(only the kind of the result and `w is T` are). -/
+
+def asciiDigits (cs : List Nat) : Bool := !cs.isEmpty && cs.all fun c => 48 ≤ c && c ≤ 57
+
+def parseIntAscii (cs : List Nat) : Option Int :=
+  let (neg, ds) := match cs with
+    | 45 :: r => (true, r)
+    | 43 :: r => (false, r)
+    | r => (false, r)
+  if asciiDigits ds then
+    let n : Nat := ds.foldl (fun a c => a * 10 + (c - 48)) 0
+    some (if neg then -(n : Int) else n)
+  else none
+
+/-- `[sign] digits [. digits]` -/
+def simpleDecimal (cs : List Nat) : Bool :=
+  let ds := match cs with
+    | 45 :: r => r
+    | 43 :: r => r
+    | r => r
+  let ip := ds.takeWhile (· != 46)
+  let rest := ds.drop ip.length
+  match rest with
+  | [] => asciiDigits ip
+  | _ :: fp => asciiDigits ip && asciiDigits fp
+
+def driverOracle : ConvOracle where
+  parseInt := parseIntAscii
+  parseRat := fun cs => if simpleDecimal cs then some 0 else none
+  parseFloat := fun cs => if simpleDecimal cs then some 0 else none
+  roundToFloat := fun _ => 0
+  display := fun _ => []
+
+def driverStructs (sid : Nat) : StructDef :=
+  if sid == 2 then { nfields := 3, defaults := [none, none, some (.int 9)] }
+  else { nfields := sid + 1, defaults := List.replicate (sid + 1) none }
+
+def convRes (t : Ty) (r : Out Val) : String :=
+  match r with
+  | .ok w => "ok " ++ tyName (typeOf w) ++ ";" ++ (match isType t w with | .ok true => "1" | .ok false => "0" | _ => "E")
+  | .throw => "throw"
+  | .panic => "panic"
+
 def handle (args : List String) : String :=
   match args with
   | ["fresh", k, env, val, pat] =>
@@ -504,6 +553,17 @@ def handle (args : List String) : String :=
     | some t, some v =>
       (isType t v).render (fun b => if b then "1" else "0") ++ tab ++
         (specIs v t).render (fun b => if b then "1" else "0")
+    | _, _ => "bad-op"
+  | ["conv", ty, val] =>
+    -- `T(v)`: kind of the result and `T(v) is T`; the Spec column is the property itself:
+    -- whatever is returned is of type T
+    match full pTy ty, full pVal val with
+    | some t, some v =>
+      let r := callType1 driverOracle driverStructs t v
+      convRes t r ++ tab ++ (match r with
+        | .ok w => "ok " ++ tyName (typeOf w) ++ ";1"
+        | .throw => "throw"
+        | .panic => "panic")
     | _, _ => "bad-op"
   | ["typeof", val] =>
     match full pVal val with
